@@ -92,11 +92,16 @@ def normalize_type(type_expression, evaluate_name=None) -> Type:
                 except:
                     has_vars = False
                 if has_vars:
-                    return ClassType(type_object.__name__, {
-                        f: normalize_type(v, evaluate_name)
-                        for f, v in vars(type_object).items()
-                        if not f.startswith('___')
-                    })
+                    attribute_types = {}
+                    for f, v in vars(type_object).items():
+                        if f.startswith('___'):
+                            continue
+                        try:
+                            attribute_types[f] = normalize_type(v, evaluate_name)
+                        except ValueError:
+                            # text that is not a type expression (the docstring, a string constant)
+                            attribute_types[f] = ImpossibleType()
+                    return ClassType(type_object.__name__, attribute_types)
                 return ClassType(type_object.__name__, {})
             return type_object
         return normalize_type(type_expression.__name__, evaluate_name=evaluate_name)
